@@ -12,7 +12,7 @@ import Lean
 import Decaf.Model.ConstFacts
 
 open Lean Elab Command in
-/-- `gen_fact_theorems C17 Model.C17.facts 99` emits `theorem C17.fact_i : (facts.getD i ("",false)).2 = true` -/
+/-- `gen_fact_theorems C17 Model.C17.facts 98` emits `theorem C17.fact_i : (facts.getD i ("",false)).2 = true` -/
 elab "gen_fact_theorems " ns:ident facts:ident n:num : command => do
   for i in [0:n.getNat] do
     let nm := mkIdent (ns.getId ++ Name.mkSimple s!"fact_{i}")
@@ -21,9 +21,9 @@ elab "gen_fact_theorems " ns:ident facts:ident n:num : command => do
 
 set_option maxRecDepth 100000
 
-theorem C17.facts_count : Model.C17.facts.length = 99 := by decide +kernel
+theorem C17.facts_count : Model.C17.facts.length = 98 := by decide +kernel
 
-gen_fact_theorems C17 Model.C17.facts 99
+gen_fact_theorems C17 Model.C17.facts 98
 
 theorem C17.all_facts_hold : ∀ f ∈ Model.C17.facts, f.2 = true := by decide +kernel
 
